@@ -51,3 +51,24 @@ add("C45", "exploration", RT + "bit-level round trip over structured float grids
 add("C46", "exploration", RT + "scripted page source recording every cursor and yield; all small page shapes exhaustively plus random scans",
     "Yielded sequence == concatenation prefix; cursors 0 then each returned cursor; no fetch after cursor 0, a failure or a consumer stop; Err() exposes the page error; Iter2 yields consecutive pairs.",
     "Iter2 judged on even-length pages.")
+add("C03", "fault_enumeration", RT + "fault enumeration in synctest bubbles; oracle = executions per uid counted in the server's execution log",
+    "client kind x queue x ConnLifetime x AlwaysPipelining x fault on one command (close before/after exec, cut reply, silent, slow reply/exec, MOVED/ASK/REDIRECT) x batch shape x position, 2100 histories of 40 virtual seconds: every VERIF.WRITE uid must be executed at most once. The lifetime-expiry re-send was repaired; the standalone EnableRedirect whole-batch re-send is a listed known finding.",
+    "Trusted: fakeredis logs one exec event per execution (also inside EXEC); redirect replies are injected without executing.")
+add("C04", "fault_enumeration", RT + "fault enumeration in synctest bubbles with deadlock detection as the hang oracle",
+    "failure {EOF, silent server (keep-alive ping + write timeout), cut in the middle of a frame, client.Close} x pending mix of nine call kinds x queue shape x AlwaysPipelining: every pending call returns within 8 virtual seconds, held commands never succeed, the next call is served on a fresh connection, calls after Close get ErrClosing and reach no server, no rueidis goroutine stays parked.",
+    "A blocking command on a silent (not failed) pool connection is left waiting by design and only counted. Virtual time: KeepAlive 1 s, ConnWriteTimeout 2 s.")
+add("C05", "fault_enumeration", RT + "virtual-time scenarios per wait path; oracle on return instants",
+    "wait path {pipeline sync/queued, DoMulti, blocking-pool wait, DoStream pool wait, cache-flight waiter (DoCache/DoMultiCache/MGET), retry back-off, slow re-dial} x deadline (fixed grid + seeded values) / manual cancel / already-done context x queue x AlwaysPipelining: return instant <= deadline (cancel: == the cancel instant), done contexts send nothing (server log).",
+    "'shortly after the deadline' is decided as 'not after the deadline instant' in virtual time.")
+add("C06", "exploration", RT + "client hooks (processed invalidations / disconnects per connection) + offline check of every cache hit against the server's wire order, under -race",
+    "8-16 readers of four cached-call kinds against writers with unique versions, FLUSHALL, expiry, table evictions and connection kills in OPTIN/OPTOUT/BCAST, static TTL, both stores, 1-4 wires: every hit must be a reply to that read on a live connection placed after the last covering invalidation the client had processed when the call started (about 39k hits checked per quick run).",
+    "Trusted: fakeredis queues replies and invalidation pushes in execution order as Redis does; unique values identify the write a read observed.")
+add("C24", "exploration", RT + "the real pool driven with counting wires in synctest bubbles + hook hand-shake for the cancellation/broadcast window + end-to-end connection counting",
+    "442 pool histories (cap 1-4, 2-40 goroutines, deadlines/cancellations, failing dials, broken wires, cleanup timer, Close at a random point): live connections <= cap at every dial, exclusive holders, size == idle == live at quiescence, done-context waiters return by their deadline, only closed wires after Close; the broadcast-before-wait window is forced with the pool.acquire hooks; a real client's pool connections are counted at the dial/Close boundary.",
+    "Both defects found (uncounted placeholder decrementing the size, broadcast without the lock) were repaired.")
+add("C41", "exploration", RT + "differential execution: the same random adapter program run directly, through Pipeline and through TxPipeline on fresh servers, plus wire-log checks",
+    "Programs over ~108 implemented call kinds and every other Pipeliner method (522): Cmder i carries the type/value/error of direct call i, Exec's error is the first error, TxPipeline sends exactly MULTI, commands, EXEC on one connection, WATCH conflicts and nil EXEC give TxFailedErr, Discard drops everything, pipelines are reusable.",
+    "Typed reply conversions are exercised only for commands fakeredis implements.")
+add("C42", "exploration", RT + "argv received by the server compared with a hand transcription of go-redis v9's argument construction (343 of 522 methods)",
+    "For each referenced method random arguments incl. option-struct corners are passed to the adapter; the single command that reaches fakeredis must equal the reference after normalising keyword case, numeric spellings and SET option order. Weaker than the statement by construction: go-redis itself is not available offline; 179 methods have no reference and are listed in the evidence.",
+    "Trusted: the transcription (tables in props/c42); disagreements were adjudicated against Redis command syntax. Three pinned divergences are listed known findings.")
